@@ -1014,6 +1014,16 @@ func TestReplay(t *testing.T) {
 	if !ok {
 		t.Skip("no replay file")
 	}
+	if doc.Check == "gatestate" {
+		c := ev.New("C15", "replay", "exploration")
+		t.Cleanup(c.Flush)
+		var plan gatePlan
+		if err := json.Unmarshal(doc.Data, &plan); err != nil {
+			t.Fatalf("bad replay data: %v", err)
+		}
+		replayGatePlan(t, c, plan)
+		return
+	}
 	if doc.Check == "prothistory" {
 		c := ev.New("C15", "replay", "exploration")
 		t.Cleanup(c.Flush)
